@@ -366,6 +366,33 @@ func c11Neighbourhood(chk *fw.Check) (evals, nontrivial int, samples []string) {
 // "M\xfcller" / "M\xf6ller"): still two different issuers.
 func c11Teletex(chk *fw.Check) (evals int) {
 	p := world.Std()
+	// (second pair, UTF8String names: characters whose code points share the low byte, e.g. U+0161 and U+0061)
+	caS := world.Issue(p.Root, world.CertOpt{Subject: &pkix.Name{CommonName: "Pr\u0161ha \u0141\u00f3d\u017a CA", Organization: []string{"verif"}}, IsCA: true, KeyKind: "ec", KeyIdx: 6, Serial: big.NewInt(86)})
+	caA := world.Issue(p.Root, world.CertOpt{Subject: &pkix.Name{CommonName: "Praha A\u00f3dz CA", Organization: []string{"verif"}}, IsCA: true, KeyKind: "ec", KeyIdx: 7, Serial: big.NewInt(87)})
+	const urlS = "http://crl.test/lowbyte.crl"
+	for _, disk := range []bool{false, true} {
+		seqWorld(func() {
+			w := NewCW(CWOpt{Disk: disk, SigMode: config.SignatureValidationModeVerify})
+			defer os.RemoveAll(w.Dir)
+			if err := w.Provision(); err != nil {
+				panic(err)
+			}
+			vsched.Drain()
+			w.Net.Serve(urlS, "listS", world.SimpleCRL(caS, 1, 5).DER())
+			listed := world.Issue(caS, world.CertOpt{CN: "c11 lowbyte listed", Serial: big.NewInt(5), KeyKind: "ec", KeyIdx: 5, CDP: []string{urlS}})
+			if v := w.Lookup(listed, world.Chain(listed, caS, p.Root)); v.String() != "REVOKED" {
+				chk.Violation("C11|listed-not-revoked|non-ascii-issuer|"+be(disk), fmt.Sprintf("vacuity guard: the listed certificate of issuer %q is not revoked: %s %s", caS.Cert.Subject.CommonName, v, v.Err), nil)
+				return
+			}
+			other := world.Issue(caA, world.CertOpt{CN: "c11 lowbyte other", Serial: big.NewInt(5), KeyKind: "ec", KeyIdx: 5})
+			v := w.Lookup(other, world.Chain(other, caA, p.Root))
+			evals++
+			if v.Revoked {
+				chk.Violation("C11|revoked-not-listed|other-issuer-same-low-bytes|"+be(disk), fmt.Sprintf("issuer %q serial 5 reported revoked; the only CRL in force is issued by %q (the names differ in characters whose code points share the low byte)", caA.Cert.Subject.CommonName, caS.Cert.Subject.CommonName), nil)
+			}
+			w.Chk.Cleanup()
+		})
+	}
 	caU := world.Issue(p.Root, world.CertOpt{CN: "t61-u", RawSubject: world.RawDNT61("O", "verif", "CN", "M\xfcller CA"), IsCA: true, KeyKind: "ec", KeyIdx: 6, Serial: big.NewInt(78)})
 	caO := world.Issue(p.Root, world.CertOpt{CN: "t61-o", RawSubject: world.RawDNT61("O", "verif", "CN", "M\xf6ller CA"), IsCA: true, KeyKind: "ec", KeyIdx: 7, Serial: big.NewInt(79)})
 	const urlT = "http://crl.test/teletex.crl"
